@@ -384,6 +384,10 @@ def aggregate(results, counters):
             ncmp += 1
             a, b = by[base], val
             part = lab.split("/")[0]
+            if "exc" in a and "exc" in b:
+                # rejected in both modes (possibly with different exception types): not a memory-safety question;
+                # IndexError / UnboundLocalError under the checked modes are reported by the workers themselves
+                continue
             if "exc" in a or "exc" in b:
                 if a.get("exc") != b.get("exc"):
                     only = mode if "exc" in b and "exc" not in a else ("JIT" if "exc" in a and "exc" not in b else "both-differently")
